@@ -754,7 +754,7 @@ def run(ctx):
         ws = witness_cases()
         run_faults(ctx, impl, ws, "witnesses-model", "witnesses-oracle", 1, 1, 1)
         if ctx.quick:
-            plan = [(140, 30, 1)]
+            plan = [(100, 30, 1)]
             path_every, display_every, pulled_every = 7, 41, 53
         else:
             plan = [(60, 0, 1), (500, 40, 2)]
